@@ -742,6 +742,39 @@ class CallMixin:
             raise Unsupported("has_key on %s" % s.ty)
         return sym.mk_bool(z3.Select(s.t, sym.as_int(c)))
 
+    def json_term(self, v):
+        """(added for C20) z3 Bool: the value is JSON-typed (str / int / float / bool / None / list / dict with str keys
+        of JSON-typed values; NO bytes, tuples, objects).  Decided from the static type; for an opaque value (TAny) it is
+        the uninterpreted predicate is_json_any(handle), about which the engine asserts a fact ONLY where it creates the
+        value from parts (heterogeneous dict display, interp.e_Dict) - so an opaque value of unknown origin is never
+        provably JSON."""
+        from .sym import TTuple
+
+        def static(ty):
+            if ty in (TStr, TInt, TBool, TReal, TNone):
+                return True
+            if isinstance(ty, TOpt):
+                return static(ty.inner)
+            if isinstance(ty, TList):
+                return static(ty.elem)
+            if isinstance(ty, TDict):
+                return ty.k == TStr and static(ty.v)
+            if isinstance(ty, TEnum):
+                return False
+            return False
+
+        if isinstance(v, V) and v.ty == TAny:
+            return z3.Function("is_json_any", z3.IntSort(), z3.BoolSort())(v.t)
+        if isinstance(v, V) and isinstance(v.ty, TOpt) and v.ty.inner == TAny:
+            return z3.Or(sym.opt_is_none(v), z3.Function("is_json_any", z3.IntSort(), z3.BoolSort())(sym.opt_val(v).t))
+        if isinstance(v, EmptyLiteral):
+            return z3.BoolVal(True)
+        return z3.BoolVal(bool(isinstance(v, V) and static(v.ty)))
+
+    def sp_is_json(self, node, env):
+        """is_json(x): see json_term"""
+        return sym.mk_bool(self.json_term(self.eval(node.args[0], env)))
+
     def sp_is_instance(self, node, env):
         """is_instance(obj, 'Cls'): obj was created (on this path) as an instance of exactly Cls."""
         v = self.evalv(node.args[0], env)
@@ -1078,6 +1111,34 @@ class CallMixin:
                 # a new set: members of recv that are not members of the argument
                 e = z3.FreshConst(recv.t.sort().domain(), "e")
                 return V(ty, z3.Lambda([e], z3.And(z3.Select(recv.t, e), z3.Not(z3.Select(args[0].t, e)))))
+        if ty == TBytes and name == "decode" and len(args) <= 1 and set(kwargs) <= {"errors"}:
+            # (added for C20)  bytes.decode(<codec literal>[, errors=<handler literal>]) -> an opaque str.
+            # Semantics implemented: with the STRICT handler (no `errors`, or "strict") UnicodeDecodeError is raised
+            # exactly when the byte string is not decodable in the codec.  Decodability is the uninterpreted predicate
+            # decodable_<codec>(bkey(b)) - a function of the VALUE of b (bkey axiom) - about which only sound facts are
+            # given: every byte string is decodable in latin-1; a string whose bytes are all < 128 is decodable in
+            # ascii and utf-8; a string containing a byte >= 128 is not decodable in ascii.  With a total handler
+            # (replace / ignore / backslashreplace) nothing is raised.  Any non-literal codec / handler: Unsupported.
+            a = node.args[0] if node.args else None
+            codec = a.value if isinstance(a, ast.Constant) and isinstance(a.value, str) else ("utf-8" if a is None else None)
+            kw = next((k.value for k in node.keywords if k.arg == "errors"), None)
+            handler = "strict" if kw is None else (kw.value if isinstance(kw, ast.Constant) and isinstance(kw.value, str) else None)
+            codec = {"utf8": "utf-8", "utf-8": "utf-8", "ascii": "ascii", "latin1": "latin-1", "latin-1": "latin-1", "iso-8859-1": "latin-1"}.get((codec or "").lower().replace("_", "-"))
+            if codec is None or handler not in ("strict", "replace", "ignore", "backslashreplace"):
+                raise Unsupported("bytes.decode with a codec / error handler that is not a known literal")
+            if handler == "strict" and codec != "latin-1":
+                ok = z3.Function("decodable_" + codec.replace("-", ""), z3.IntSort(), z3.BoolSort())(sym.bkey(recv.t))
+                k = z3.FreshConst(z3.IntSort(), "k")
+                n = sym.bytes_len(recv)
+                all_ascii = z3.ForAll([k], z3.Implies(z3.And(0 <= k, k < n), z3.Select(sym.bytes_data(recv), k) < 128))
+                self.ctx.assume(z3.Implies(all_ascii, ok))
+                if codec == "ascii":
+                    self.ctx.assume(z3.Implies(ok, all_ascii))
+                self.assumptions_used.add("bytes.decode: decodability in utf-8 is an uninterpreted predicate of the byte string's value; only 'all bytes < 128 => decodable' is used")
+                self.fail(ok, "UnicodeDecodeError", "bytes.decode(%r) with the strict error handler" % codec, node)
+            return V(TStr, self.ctx.fresh_const(sym.StrSort, "decoded"))
+        if ty == TBytes and name == "hex" and not args and not kwargs:
+            return V(TStr, self.ctx.fresh_const(sym.StrSort, "hex"))  # (added for C20) total, opaque str
         if ty == TBytes and name == "startswith" and len(args) == 1 and isinstance(args[0], V) and args[0].ty == TBytes and not kwargs:
             # bytes.startswith(prefix): len(prefix) <= len(self) and the first len(prefix) bytes agree
             p = args[0]
